@@ -47,6 +47,8 @@ pub enum Command {
     ShowServerRole,
     SetPrimaryReads,
     ShowPrimaryReads,
+    /// A custom command whose argument cannot be used; the value is the error message.
+    Invalid,
 }
 
 #[derive(PartialEq, Debug)]
@@ -290,21 +292,37 @@ impl QueryRouter {
                 true => String::from("on"),
                 false => String::from("off"),
             },
+
+            Command::Invalid => unreachable!(),
         };
 
         match command {
             Command::SetShardingKey => {
-                // TODO: some error handling here
-                value = self
-                    .set_sharding_key(value.parse::<i64>().unwrap())
-                    .unwrap()
-                    .to_string();
+                let sharding_key = match value.parse::<i64>() {
+                    Ok(sharding_key) => sharding_key,
+                    Err(_) => {
+                        return Some((
+                            Command::Invalid,
+                            format!("sharding key {} is out of range for type bigint", value),
+                        ))
+                    }
+                };
+
+                value = self.set_sharding_key(sharding_key).unwrap().to_string();
             }
 
             Command::SetShard => {
                 self.active_shard = match value.to_ascii_uppercase().as_ref() {
                     "ANY" => Some(rand::random::<usize>() % self.pool_settings.shards),
-                    _ => Some(value.parse::<usize>().unwrap()),
+                    _ => match value.parse::<usize>() {
+                        Ok(shard) => Some(shard),
+                        Err(_) => {
+                            return Some((
+                                Command::Invalid,
+                                format!("shard {} is out of range", value),
+                            ))
+                        }
+                    },
                 };
             }
 
